@@ -1,9 +1,18 @@
-from props_common import TRUSTED_COMMON
+from props_common import GEN_CASTS_TRUST, GEN_LAYOUT_TRUST, TRUSTED_COMMON
 
 PROP = {
-    "lean_targets": ["MultiProofs.C12"],
+    "generators": [{"script": "gen_layout.py"}, {"script": "gen_casts.py"}],
+    "lean_targets": ["MultiProofs.C12", "MultiProofs.GenTie", "MultiProofs.GenTieCast"],
     "lean_module": "MultiProofs.C12",
     "theorems": [
+        "Multi.GenTieCast.member_cast_is_the_code",
+        "Multi.GenTieCast.reinterpret_is_the_code",
+        "Multi.GenTieCast.reinterpret1_is_the_code",
+        "Multi.GenTieCast.reinterpret_n_is_the_code",
+        "Multi.GenTieCast.cast_assertions_are_the_code",
+        "Multi.GenTieCast.reinterpret1_asserts_tie",
+        "Multi.GenTie.L_scale_tie",
+        "Multi.GenTie.L_scale_asserts_tie",
         "Multi.C12.member_cast_addr",
         "Multi.C12.reinterpret_addr",
         "Multi.C12.reinterpret_n_addr",
@@ -22,7 +31,7 @@ PROP = {
          "programs": {"quick": 6400, "thorough": 480000}},
     ],
     "hooks": ["count_nonintegral_casts"],
-    "trusted_base": TRUSTED_COMMON + [
+    "trusted_base": TRUSTED_COMMON + GEN_LAYOUT_TRUST + GEN_CASTS_TRUST + [
         "byte-address semantics of typed pointers (T* + k = byte address + k*sizeof(T)); sizeof(S4)=32, sizeof(S3)=24, sizeof(complex<double>)=16, sizeof(int)=sizeof(unsigned)=4 (static_assert in the harness)",
         "elements()/uninitialized_copy_n visit the source in canonical order (that is C02/C03); the model of array(view) takes that order as given",
     ],
